@@ -17,7 +17,46 @@ SEEDS = {
          "a hand-anchored pattern with a top-level alternation (^A|B$) or ending in an escaped dollar"),
  "C07": ("internal/refopts/ref_group.go collectSymbols: walk flag assigned from the last subgroup; Other decided from the subgroups' boolean",
          "a rule-less group with >= 2 subgroups under a ruled group, and a reference matching a subgroup that is not the last"),
- "C08": None,
+ "C08": ("sizes/path_resolver.go NullPathResolver shares the last Path and recycles a forgotten one",
+         "--names=hash and three trees X, Y, Z finalised in that order, X holding >= 2 records, Z taking one of them"),
+ "C01b": ("sizes/graph.go empty-tree fast path (RegisterEmptyTree) that never calls recordTree",
+          "the empty tree reachable (commit with empty root tree, sub-directory entry, or ROOT)"),
+ "C02b": ("sizes/graph.go RegisterCommit counts parents from a map keyed by OID",
+          "a commit listing the same parent twice that is the strict maximum"),
+ "C03b": ("sizes/graph.go iterative tag notification uses the depth of the first record for every waiting tag",
+          ">= 3 annotated tags of one chain enumerated outermost-first"),
+ "C04b": ("sizes/sizes.go addDescendent: the +1 path component moved inside `if MaxPathLength > 0`",
+          "every deepest path of the deepest tree ends in an empty directory"),
+ "C05b": ("sizes/output.go levelOfConcern: overflow folded into `overflow || alert > 30` after the threshold filter",
+          "a saturated counter and a threshold above capacity/reference (e.g. --threshold=100000)"),
+ "C06b": ("internal/refopts/filter_group_value.go refGroupPasses stops at a rule-less ancestor",
+          "a group nested >= 3 levels with a rule-less middle group, used as @a.b.c, and an outer filter rejecting what the inner accepts"),
+ "C07b": ("sizes/output.go formatRow slices the 28-byte `spaces` constant again",
+          "a refgroup chain >= 14 deep with a tallied reference, table output with -v"),
+ "C08b": ("sizes/path_resolver.go RecordTag implemented + graph.go calls it: commit under a tag gets `<tag>^{commit}` without ':'",
+          "--names=full, an annotated tag on the commit used for naming, a witness below the root tree"),
+ "C09b": ("sizes/graph.go skips a root whose OID equals the previous list entry's (walked or not)",
+          "a walked root directly after a non-walked root with the same OID and no other path to its objects"),
+ "C10b": ("sizes/graph.go abort(err) waits for the feeder goroutine (`<-errChan`) before returning",
+          "a git process dying before consuming its stdin while > 70 KB of object ids remain unsent"),
+ "C11b": ("sizes/output.go levelOfConcern compares the truncated star count with the threshold",
+          "a fractional threshold and a metric whose level lies in [t, ceil t)"),
+ "C12b": ("counts/human.go decimals chosen from decimalDigits(n) - 3*index",
+          "binary prefixes, scaled mantissa just below 10 or 100 (e.g. 10000 B)"),
+ "C13b": ("git/ rev-parse for ROOT arguments run without --no-replace-objects / GIT_GRAFT_FILE",
+          "a ROOT with a suffix (~n, ^{tree}, :path) crossing a replaced or grafted object"),
+ "C14b": ("internal/refopts/filter_value.go: --include @G returns G's own filter without the refGroupFilter wrapper",
+          "a nested refgroup with its own filter whose ancestor rejects a reference the child accepts"),
+ "C15b": ("internal/refopts/ref_group.go augmentFromConfig skips a (key, value) pair it has already applied",
+          "the same entry listed twice with an entry of the opposite effect in between"),
+ "C16b": ("git/tree.go hand-written scan of `<mode> SP <name> NUL` treats every space as the end of the mode",
+          "a tree entry whose name contains a space"),
+ "C17b": ("sizes/graph.go 'Matching commits to trees' runs in a goroutine joined only before HistorySize()",
+          "names enabled, an annotated tag, a biggest object in a commit pointed at by a walked ref, and the main goroutine winning"),
+ "C18b": ("sizes/graph.go skips (before Inc) a commit whose root tree equals the previous commit's",
+          "progress on, names not none, adjacent commits sharing a root tree"),
+ "C19b": ("sizes/footnotes.go sanitises footnote text inside the `if !ok` branch (map looked up raw, filled sanitised)",
+          "table output, an unprintable rune in a cited path, the object cited by >= 2 rows"),
  "C09": ("git/obj_iter.go drops --date-order and sizes/graph.go RegisterCommit skips unknown parents",
          "a branching history with equal / skewed committer dates, longest chain through the misordered commit"),
  "C10": ("sizes/graph.go: the end-of-stream check of cat-file --batch moved inside the annotated-tag loop",
@@ -56,9 +95,9 @@ for sid, v in SEEDS.items():
                               "concrete_failing_input": any("no-failing-input-found" not in l for l in vl),
                               "summary": txt.strip().splitlines()[-1][:200] if txt.strip() else ""}
     tests = open(os.path.join(d, "tests.log")).read().strip() if os.path.exists(os.path.join(d, "tests.log")) else ""
-    meta = {"property": sid, "change": v[0], "needs_to_manifest": v[1],
+    meta = {"property": sid[:3], "change": v[0], "needs_to_manifest": v[1],
             "origin": "written by a fresh sub-agent that saw only the property text and a scratch worktree of /repo",
-            "confirmed_by_me": {"how": "tools/seedverify.sh %s <checks>: in the scratch worktree — go build, the 53 stable tests, "
+            "confirmed_by_me": {"how": "[SEEDBASE=/tmp/seed2 SUFFIX=b] tools/seedverify.sh %s <checks>: in the scratch worktree — go build, the 53 stable tests, "
                                        "demo.sh on the original (exit 0) and on the patched tree (non-zero); then `git -C /repo apply`, "
                                        "bin/check, `git -C /repo checkout -- .`" % sid,
                                 "stable_tests": tests,
